@@ -369,6 +369,10 @@ type Runner struct {
 	S       Setup
 	T       *Target
 	Aborted *atomic.Bool
+	// Stage, if set, names the point of the server's life at which the transcripts run (e.g.
+	// "after-wake"); it becomes part of the violation key so that a failure that only shows
+	// there is distinguishable.
+	Stage string
 }
 
 func (x *Runner) dial(tx *Tx) (wire, bool) {
@@ -528,7 +532,11 @@ func (x *Runner) judge(tx *Tx) {
 				what = "icmp"
 			}
 		}
-		r.Violation(fmt.Sprintf("%s:%s-%s-executed", x.S.Class, tx.Transport, what), x.Phase, x.Case,
+		key := fmt.Sprintf("%s:%s-%s-executed", x.S.Class, tx.Transport, what)
+		if x.Stage != "" {
+			key += "-" + x.Stage
+		}
+		r.Violation(key, x.Phase, x.Case,
 			fmt.Sprintf("authentication is enforced (%s) but a %s client that never presented credentials of a configured user got %s executed (method selected: %#x, dials %v, udp %d, icmp %d, REP %d)",
 				x.S.Class, tx.Transport, what, tx.Method, tx.Ev.Dials, tx.Ev.UDP, tx.Ev.ICMP, tx.Rep),
 			map[string]any{"setup": x.S, "transcript": tx})
